@@ -46,7 +46,8 @@ EffBits(rb) == IF rb <= 1 THEN 16 ELSE IF rb > 22 THEN 22 ELSE rb
 \* the time field has 41 bits whatever randBit is: generators whose start time lies e milliseconds in the past, with e
 \* small, either side of 2^40 (the ids taken 2 ms apart straddle the mark) and just below 2^41
 \* (TLC integers have 32 bits: e is written <<b, k, d>> for b * 2^k + d)
-Elapsed == {<<0, 0, 12345678>>, <<1, 40, -3>>, <<1, 40, 5>>, <<1, 41, -100000>>}
+\* (a start time in the future - clock skew, a launch date ahead - gives a negative elapsed time: ids stay non-negative)
+Elapsed == {<<0, 0, 12345678>>, <<1, 40, -3>>, <<1, 40, 5>>, <<1, 41, -100000>>, <<0, 0, -60000>>, <<0, 0, -86400000>>}
 IdLayoutCases == \A rb \in -2..26 : \A e \in Elapsed :
     Emit([fn |-> "idlayout", s |-> <<>>, a |-> <<rb>> \o e, out |-> <<EffBits(rb)>>])
 
